@@ -677,6 +677,66 @@ func RunRapid(c *core.Ctx) {
 		}
 		c.Check(okAny, "RAPID.any", "rapidproto.genAny consistency", "type_url is the resolved URL; value is proto.Marshal of a new message of exactly that resolved type", why, pos(f.Pos()), src)
 	}
+	// ------------------------------------------------------------------ RAPID.url
+	// WithAnyTypes: URL = "/" + full name of the message; WithInterfaceHint: hint = full name
+	if f := byName["WithAnyTypes"]; f != nil {
+		okU := false
+		allInstrs(f, func(b *ssa.BasicBlock, in ssa.Instruction) {
+			call, ok := in.(*ssa.Call)
+			if !ok || call.Call.StaticCallee() == nil || call.Call.StaticCallee().String() != "fmt.Sprintf" || len(call.Call.Args) != 2 {
+				return
+			}
+			if fs, ok := constString(call.Call.Args[0]); ok && (fs == "/%s" || fs == "/%v") {
+				if sl, ok := call.Call.Args[1].(*ssa.Slice); ok {
+					if al, ok := sl.X.(*ssa.Alloc); ok {
+						for _, r := range *al.Referrers() {
+							if ia, ok := r.(*ssa.IndexAddr); ok {
+								for _, r2 := range *ia.Referrers() {
+									if st, ok := r2.(*ssa.Store); ok {
+										if _, ok := invokeChain(st.Val, "ProtoReflect", "Descriptor", "FullName"); ok {
+											okU = true
+										}
+									}
+								}
+							}
+						}
+					}
+				}
+			}
+		})
+		c.Check(okU, "RAPID.url", "rapidproto.WithAnyTypes URL", "type URL is \"/\" + the message's full name", "the Any type URL is not \"/\" + Descriptor().FullName() (a short name is not resolvable for packaged or nested types)", pos(f.Pos()), src)
+	} else {
+		c.Fail("RAPID.anchor", "rapidproto.WithAnyTypes", "function not found", "", src)
+	}
+	if f := byName["WithInterfaceHint"]; f != nil {
+		okH := false
+		allInstrs(f, func(b *ssa.BasicBlock, in ssa.Instruction) {
+			mu, ok := in.(*ssa.MapUpdate)
+			if !ok {
+				return
+			}
+			if _, ok := invokeChain(mu.Value, "ProtoReflect", "Descriptor", "FullName"); ok {
+				okH = true
+			}
+		})
+		c.Check(okH, "RAPID.url", "rapidproto.WithInterfaceHint value", "the hinted implementation is stored by its full name", "the interface hint is not the implementation's Descriptor().FullName(): genAny builds an unresolvable URL for packaged or nested types", pos(f.Pos()), src)
+	} else {
+		c.Fail("RAPID.anchor", "rapidproto.WithInterfaceHint", "function not found", "", src)
+	}
+	// genAny: hinted URL = "/" + hint
+	{
+		f := byName["genAny"]
+		okS := false
+		allInstrs(f, func(b *ssa.BasicBlock, in ssa.Instruction) {
+			call, ok := in.(*ssa.Call)
+			if ok && call.Call.StaticCallee() != nil && call.Call.StaticCallee().String() == "fmt.Sprintf" {
+				if fs, ok := constString(call.Call.Args[0]); ok && fs == "/%s" {
+					okS = true
+				}
+			}
+		})
+		c.Check(okS, "RAPID.url", "rapidproto.genAny hinted URL", "hinted URL is \"/\" + hint", "the hinted type URL is not built as \"/\" + hint", pos(f.Pos()), src)
+	}
 	// ------------------------------------------------------------------ RAPID.nil
 	runRapidNil(c, fns, seen)
 }
